@@ -12,7 +12,7 @@ open NA.Sess
 /-! ## pkg/panos -/
 
 def panosHttpGetBody (ρ : Role) (t : Txt) : Sess :=
-  .send ρ t ;; .recv ρ .http ;;
+  .roundTrip ρ t true ;;
   .ite .err "err != nil" (.ret .keep ["nil", "err"]) .skip ;;
   op "ReadAll" ["_"] ;; op "Close" ;;
   .ite .not200 "resp.StatusCode != http.StatusOK" (.ret .err ["_", "_"]) .skip ;;
@@ -99,7 +99,7 @@ def panosLoadDevice : Sess :=
 def nsxSendRequestBody (ρ : Role) (t : Txt) : Sess :=
   op "NewRequest" ["_", "_", "_"] ;;
   .ite .never "err != nil" (.ret .keep ["nil", "err"]) .skip ;;
-  .send ρ t ;; .recv ρ .http ;;
+  .roundTrip ρ t (ρ != .change) ;;
   .ite .err "err != nil" (.ret .keep ["nil", "err"]) .skip ;;
   .defer (op "Close")
     (.ite .not200 "resp.StatusCode != http.StatusOK"
@@ -122,7 +122,7 @@ def jsonUnmarshal : Sess :=
 groups (what the scenarios use). -/
 def nsxLoadDevice : Sess :=
   .call "TryReachableHTTPLogin" ["_", "_"] (
-    .send .login (.lit "session create") ;; .recv .login .http ;;
+    .roundTrip .login (.lit "session create") false ;;
     .ite .err "err != nil" (.mark .logWarn ;; .ret .err ["err"]) .skip ;;
     .ite .not200 "resp.StatusCode != http.StatusOK" (.mark .logWarn ;; .ret .err ["_"]) .skip ;;
     .ret .nil ["nil"]) ;;
